@@ -13,6 +13,10 @@ place where state can outlive a call is listed syntactically, as a triple
   global-rebound      a name rebound through a `global` statement
   class-attr-written  class attribute written through `cls.X`, `self.__class__.X`,
                       `type(self).X` or `ClassName.X`
+  class-attr-subclass-copy
+                      a subclass of a class whose attribute is written through
+                      `self.__class__.X`: the first write from an instance of the
+                      subclass creates a separate attribute on the subclass
   class-default-shadowed
                       class attribute given a value in the class body and assigned
                       through `self.X` outside `__init__` (class or subclasses)
@@ -52,10 +56,8 @@ NAME = "c18"
 
 IMMUTABLE_CALLS = {
     "re.compile", "frozenset", "tuple", "int", "str", "float", "bool", "bytes",
-    "namedtuple", "collections.namedtuple", "object", "len", "sorted_tuple",
-    "itertools.count",  # not used at module level; listed so that a use shows up below
+    "namedtuple", "collections.namedtuple", "object", "len",
 }
-IMMUTABLE_CALLS.discard("itertools.count")
 
 MUTATORS = {"append", "extend", "insert", "pop", "remove", "clear", "update", "add",
             "discard", "setdefault", "sort", "reverse", "popitem", "appendleft",
@@ -405,6 +407,11 @@ class Scanner:
                     if parts[1:3] == ["__class__"] + parts[2:3] and len(parts) == 3:
                         owner = self.class_attr_owner(c, parts[2]) or c
                         self.emit(owner.module, f"{owner.qual}.{parts[2]}", "class-attr-written")
+                        # written through the instance's class: every subclass gets a
+                        # copy of its own with the first write
+                        for k in self.classes:
+                            if k is not c and c in self.ancestors(k):
+                                self.emit(k.module, f"{k.qual}.{parts[2]}", "class-attr-subclass-copy")
                     elif len(parts) == 2:
                         self.self_store(c, parts[1], in_init, singles)
                     else:
@@ -486,14 +493,64 @@ def inventory():
     return Scanner().run()
 
 
+def parser_table(sc):
+    """[(regex, class name)] of parser.__constructors (the last module-level binding), and
+    the indices of the parsers whose junk is a subclass of Junk with a counter of its own"""
+    tree = dict(sc.mods)["compare_locales.parser"]
+    table = None
+    for st in tree.body:
+        for t, v in assign_targets(st):
+            if isinstance(t, ast.Name) and t.id == "__constructors":
+                table = v
+    if not isinstance(table, ast.List) or not table.elts:
+        raise RuntimeError("parser.__constructors is not a non-empty list literal")
+    rows = []
+    for e in table.elts:
+        if not (isinstance(e, ast.Tuple) and len(e.elts) == 2 and isinstance(e.elts[0], ast.Constant)
+                and isinstance(e.elts[1], ast.Call) and isinstance(e.elts[1].func, ast.Name)
+                and not e.elts[1].args and not e.elts[1].keywords):
+            raise RuntimeError("unexpected entry of parser.__constructors: " + ast.unparse(e))
+        rows.append((e.elts[0].value, e.elts[1].func.id))
+    junk = [c for c in sc.classes if c.simple == "Junk" and c.module == "compare_locales.parser.base"]
+    if len(junk) != 1:
+        raise RuntimeError("class Junk not found")
+    subs = [c for c in sc.classes if c is not junk[0] and junk[0] in sc.ancestors(c)]
+    own = []
+    for i, (_, cls) in enumerate(rows):
+        mods = [c.module for c in sc.by_simple.get(cls, [])]
+        if len(mods) != 1:
+            raise RuntimeError("parser class %s not found exactly once" % cls)
+        tree = dict(sc.mods)[mods[0]]
+        made = {dotted(n.func) for n in ast.walk(tree) if isinstance(n, ast.Call) and dotted(n.func)}
+        sub_made = [c.simple for c in subs if c.simple in made]
+        if sub_made and "Junk" in made:
+            raise RuntimeError("%s makes both Junk and %r: the model gives a parser one counter"
+                               % (mods[0], sub_made))
+        if sub_made:
+            own.append(i)
+    # nobody else makes an instance of a Junk subclass
+    for c in subs:
+        for module, tree in sc.mods:
+            if module == c.module:
+                continue
+            for n in ast.walk(tree):
+                if isinstance(n, ast.Call) and (dotted(n.func) or "").split(".")[-1] == c.simple:
+                    raise RuntimeError("%s constructed outside its module (%s)" % (c.simple, module))
+    if len(subs) > 1:
+        raise RuntimeError("more than one Junk subclass: %r" % [c.qual for c in subs])
+    return rows, own
+
+
 EXPECTED_KINDS = {"module-const", "module-mutated", "global-rebound", "class-attr-written",
                   "class-default-shadowed", "class-singleton-attr", "singleton-attr",
                   "instance-attr", "lazy-attr", "instance-mutated", "param-attr-written",
-                  "mutable-default", "memoized"}
+                  "mutable-default", "memoized", "class-attr-subclass-copy"}
 
 
 def generate():
-    inv = inventory()
+    sc = Scanner()
+    inv = sc.run()
+    rows, own = parser_table(sc)
     if not inv:
         raise RuntimeError("empty state inventory")
     for m, n, k in inv:
@@ -515,6 +572,14 @@ def generate():
         body.append(f"   (* {m} : {n} : {k} *)\n   ({coq_str(m)},\n    {coq_str(n)},\n    {coq_str(k)})")
     lines.append(";\n".join(body))
     lines.append("  ].")
+    lines.append("")
+    lines.append("(* parser.__constructors in order: (regex, class); a format of the model is an index *)")
+    lines.append("Definition parser_table : list (list N * list N) :=\n  [" +
+                 ";\n   ".join(f"({coq_str(r)}, {coq_str(c)})" for r, c in rows) + "].")
+    lines.append("")
+    lines.append("(* parsers whose junk entries are instances of a subclass of Junk (XMLJunk): their")
+    lines.append("   ids come from the subclass's own copy of junkid *)")
+    lines.append("Definition xmljunk_parsers : list nat := [" + "; ".join(str(i) for i in own) + "].")
     lines.append("")
     return [("FactsC18.v", "\n".join(lines))]
 
